@@ -183,9 +183,9 @@ def run_scenario(spec, tier, open_classes, focus=None, validate_max=12, timeout_
         # validate this path on real numpy with a model of its path condition
         if validations["done"] >= validate_max or focus is not None:
             return
-        if ctx.check() != z3.sat:
+        m = ctx.nice_model()
+        if m is None:
             return
-        m = ctx.solver.model()
         model = {n: core.model_value(m.eval(c, model_completion=True)) for n, c in ctx.inputs.items()}
         sym_obs = {k: _eval_obs(m, v) for k, v in ctx.observed.items()}
         had_violation = any(v["trace"] == ctx.trace for v in st.violations)
@@ -237,6 +237,10 @@ def run_scenario(spec, tier, open_classes, focus=None, validate_max=12, timeout_
             why = None if ok else f"real run outcome={r_out!r} failed={r_failed[:4]}"
         except Exception as e:  # noqa: BLE001
             ok, why = False, f"real run raised {e!r}"
+        if not ok and getattr(sc, "float_sensitive", False):
+            st.inconclusive += 1
+            st.unknowns.append(f"counterexample not reproduced on real numpy (float-sensitive scenario): {v['label']}")
+            continue
         (confirmed if ok else unconfirmed).append({"spec": spec, "label": v["label"], "family": v["family"],
                                                    "model": v["model"], "why": why})
     return {"spec": spec, "ident": sc.ident(), "stats": st.to_dict(), "validations": validations,
